@@ -15,6 +15,9 @@ HANDLES = {
     "ResolvedElement": "cstree::syntax::ResolvedElement<K, {D}>", "ResolvedElementRef": "cstree::syntax::ResolvedElementRef<'static, K, {D}>",
 }
 GEN = {"none": ("'static", "FF"), "send": ("Send + 'static", "TF"), "sync": ("Sync + 'static", "FT"), "both": ("Send + Sync + 'static", "TT")}
+# what a text view borrows its resolver as: name -> (rust type, Send?Sync?)
+VIEW_RES = {"dyn": ("dyn Resolver<TokenKey>", "FF"), "dynss": ("dyn Resolver<TokenKey> + Send + Sync", "TT"), "ok": ("OkResolver", "TT"),
+            "cell": ("CellResolver", "TF"), "rc": ("RcResolver", "FF")}
 RES = {"rc": ("RcResolver", "FF"), "sendonly": ("CellResolver", "TF"), "ok": ("OkResolver", "TT")}
 
 PRELUDE = """#![allow(dead_code, unused)]
@@ -74,6 +77,11 @@ class C08(Property):
         for t in ("GreenNode", "GreenToken"):
             for tr in ("Send", "Sync"):
                 res.append(("exhaustive", "A green %s %s" % (t, tr)))
+        # borrowed text views over every way of borrowing a resolver
+        for i, (_, ibits) in VIEW_RES.items():
+            for w in ("unit", "cell", "rc", "arcmutex"):
+                for tr in ("Send", "Sync"):
+                    res.append(("exhaustive", "A text %s %s %s %s %s" % (i, ibits, w, WIT[w][1], tr)))
         return res
 
     exhaustive_note = {"quick": "8 handle types x (8 witnesses + 4 generic bound sets) x {Send, Sync}; 2 constructors x 3 resolvers; green types",
@@ -90,6 +98,8 @@ class C08(Property):
         if t[1] == "ctor":
             c = "cstree::syntax::SyntaxNode::<K, ()>" if t[2] == "node" else "cstree::syntax::ResolvedNode::<K, ()>"
             return "fn f%d() { let _ = %s::new_root_with_resolver(green(), %s::default()); }" % (i, c, RES[t[3]][0])
+        if t[1] == "text":
+            return "fn f%d() { assert_%s::<cstree::text::SyntaxText<'static, 'static, %s, K, %s>>() }" % (i, t[6].lower(), VIEW_RES[t[2]][0], WIT[t[4]][0])
         return "fn f%d() { assert_%s::<cstree::green::%s>() }" % (i, t[3].lower(), t[2])
 
     def custom_impl(self, cases, profile):
@@ -119,6 +129,9 @@ class C08(Property):
         elif t[1] == "ctor":
             exp = "accept" if t[4] == "TT" else "reject"
             what = "%s::new_root_with_resolver with a %s resolver" % (t[2], t[3])
+        elif t[1] == "text":
+            exp = "accept" if (t[3][1] == "T" and t[5] == "TT") else "reject"
+            what = "SyntaxText<%s, K, %s>: %s" % (VIEW_RES[t[2]][0], t[4], t[6])
         else:
             exp, what = "accept", "%s: %s" % (t[2], t[3])
         if impl != exp:
@@ -127,7 +140,7 @@ class C08(Property):
 
     def nontrivial(self, case, impl):
         t = case.split(" ")
-        return t[1] == "gen" or (t[1] in ("handle", "ctor") and t[4] != "TT")
+        return t[1] == "gen" or (t[1] in ("handle", "ctor") and t[4] != "TT") or (t[1] == "text" and not (t[3][1] == "T" and t[5] == "TT"))
 
     def known_class(self, case, impl, why):
         return None
